@@ -224,6 +224,9 @@ func (CoreScenario) Gen(r *rand.Rand, prop string) *SvcCase {
 	if lifecycle && chance(r, 20) {
 		c.Gate = false
 	}
+	if c.Epochs > 1 && chance(r, 40) {
+		c.OverlapServe = true
+	}
 	if chance(r, 10) {
 		c.LosePct = 10
 	}
@@ -324,11 +327,12 @@ func patsOf(c *SvcCase) []model.Pat {
 
 // SvcRun is the outcome of a service scenario run.
 type SvcRun struct {
-	E      *Engine
-	H      *Hist
-	States map[string]bool
-	Hang   string
-	Final  string // parked tasks when the loop ended (debug output)
+	E          *Engine
+	H          *Hist
+	States     map[string]bool
+	Hang       string
+	serveStuck bool
+	Final      string // parked tasks when the loop ended (debug output)
 }
 
 // RunSvc runs a SvcCase to completion inside the bubble and returns the
@@ -359,13 +363,12 @@ func RunSvc(sim *sched.Sim, c *SvcCase, raceMode bool, setup func(e *Engine)) *S
 	}
 	e.StartActors()
 
-	serve := sim.TaskByName("serve")
 	life := sim.TaskByName("life")
 	started := func(ep int) bool {
 		if ep >= len(e.Epochs) {
 			return false
 		}
-		if e.Epochs[ep].ServeReturn != 0 || serve.IsDone() {
+		if e.Epochs[ep].ServeReturn != 0 || e.ServeDone() {
 			return true
 		}
 		if c.Gate {
@@ -380,6 +383,14 @@ func RunSvc(sim *sched.Sim, c *SvcCase, raceMode bool, setup func(e *Engine)) *S
 		}
 		if t == life {
 			return t.Point != "life.wait" // life.wait is handled below
+		}
+		if t.Point == "serve.wait" {
+			ep, _ := strconv.Atoi(t.Arg)
+			if ep == 0 || e.Epochs[ep-1].ServeReturn != 0 {
+				return true
+			}
+			prev := e.Epochs[ep-1]
+			return c.OverlapServe && (prev.ShutdownReturn != 0 || prev.SelfShutdown)
 		}
 		if t.Point == "serve.retrywait" {
 			// Serve was refused because the previous Shutdown is still in
@@ -414,15 +425,18 @@ func RunSvc(sim *sched.Sim, c *SvcCase, raceMode bool, setup func(e *Engine)) *S
 	idleTime := time.Duration(0)
 	for iter := 0; iter < 20000; iter++ {
 		sim.Wait()
-		if serve.IsParked() && serve.Point == "serve.retrywait" {
-			libParked = 0
-			for _, t := range sim.Parked() {
-				if !t.Harness {
-					libParked++
+		for _, st := range e.serveTasks {
+			if st.IsParked() && st.Point == "serve.retrywait" {
+				libParked = 0
+				for _, t := range sim.Parked() {
+					if !t.Harness {
+						libParked++
+					}
 				}
+				break
 			}
 		}
-		if serve.IsDone() && life.IsDone() && e.ActorsDone() {
+		if e.ServeDone() && life.IsDone() && e.ActorsDone() {
 			acts := sim.Enabled(filter)
 			if len(acts) == 0 {
 				break
@@ -433,6 +447,16 @@ func RunSvc(sim *sched.Sim, c *SvcCase, raceMode bool, setup func(e *Engine)) *S
 		if len(nonTime(acts)) == 0 && !e.idleNow {
 			e.idleNow = true
 			acts = sim.Enabled(filter)
+			// nothing can run: a Serve call whose Shutdown has returned and
+			// that is neither done nor parked at a yield point is blocked
+			// inside the library
+			for i, st := range e.serveTasks {
+				ep := e.Epochs[i]
+				if ep.ShutdownReturn != 0 && ep.ShutdownErr == "" && ep.ServeInvoke != 0 && !st.IsDone() && !st.IsParked() && !run.serveStuck {
+					run.serveStuck = true
+					e.H.Violate("C03", "serve-blocked-after-shutdown", "", fmt.Sprintf("epoch %d: Shutdown has returned and nothing is runnable, but the Serve call of that epoch is still blocked inside the library (the service was served again meanwhile: %v)", i, i+1 < len(e.Epochs) && e.Epochs[i+1].ServeInvoke != 0))
+				}
+			}
 		} else if len(nonTime(acts)) > 0 {
 			e.idleNow = false
 		}
@@ -453,6 +477,12 @@ func RunSvc(sim *sched.Sim, c *SvcCase, raceMode bool, setup func(e *Engine)) *S
 			}
 			if !eligible && len(nonTime(acts)) == 0 && !e.sleepers() {
 				// quiescent: clean shutdown of this epoch
+				if len(acts) == 0 && info.ServeInvoke == 0 && info.Refused >= 3 {
+					// the epoch cannot begin (its Serve call waits for the
+					// previous one, which is stuck): not a state to poll in
+					run.Hang = "Serve never returned; the next epoch cannot begin"
+					break
+				}
 				if len(acts) == 0 {
 					e.checkQuiescent(ep)
 					eligible = true
@@ -468,6 +498,13 @@ func RunSvc(sim *sched.Sim, c *SvcCase, raceMode bool, setup func(e *Engine)) *S
 				e.Sleep(time.Second)
 				idleTime += time.Second
 				continue
+			}
+			serve := e.serveTasks[0]
+			for _, st := range e.serveTasks {
+				if !st.IsDone() {
+					serve = st
+					break
+				}
 			}
 			run.Hang = run.classifyHang(serve, life)
 			break
@@ -623,7 +660,7 @@ func (e *Engine) HookObserver2(point, arg string) {
 		e.H.mu.Unlock()
 	case "runWith.afterSignal", "runWith.afterAppend":
 		t := e.Sim.Current()
-		if t != nil && t.Name == "serve" {
+		if t != nil && strings.HasPrefix(t.Name, "serve") {
 			e.H.mu.Lock()
 			if e.curReq != nil && e.curReq.Enqueued == 0 {
 				e.curReq.Enqueued = e.Sim.Seq()
